@@ -190,6 +190,15 @@ static int find_rio_in (
 		/* chain it */
 		p->next = rtx->rio.chain;
 		rtx->rio.chain = p;
+
+		if (in_type == HAWK_IN_CONSOLE && x >= 1)
+		{
+			/* FNR counts the records of the current file. it restarts from 0 for
+			 * the first stream of the console as it does for the following ones
+			 * in switch_to_next_in_stream() even if the BEGIN block assigned FNR */
+			hawk_val_t* zero = hawk_rtx_makeintval(rtx, 0);
+			if (HAWK_UNLIKELY(!zero) || hawk_rtx_setgbl(rtx, HAWK_GBL_FNR, zero) <= -1) return -1;
+		}
 	}
 
 	*rio = p;
